@@ -401,6 +401,26 @@ func (repo *GoGitRepo) FetchRefs(remote string, prefixes ...string) (string, err
 		refSpecs[i] = config.RefSpec(fmt.Sprintf("refs/%s/*:refs/remotes/%s/%s/*", prefix, remote, prefix))
 	}
 
+	// go-git cannot update a reference that only lives in packed-refs (after a "git gc" or
+	// "git pack-refs"): it creates an empty loose file, fails with "reference has changed
+	// concurrently" and leaves a broken ref behind. Make sure the remote-tracking refs we are
+	// about to update exist as loose refs.
+	for _, prefix := range prefixes {
+		refs, err := repo.ListRefs(fmt.Sprintf("refs/remotes/%s/%s/", remote, prefix))
+		if err != nil {
+			return "", err
+		}
+		for _, name := range refs {
+			ref, err := repo.r.Reference(plumbing.ReferenceName(name), false)
+			if err != nil {
+				return "", err
+			}
+			if err := repo.r.Storer.SetReference(ref); err != nil {
+				return "", err
+			}
+		}
+	}
+
 	buf := bytes.NewBuffer(nil)
 
 	err := repo.r.Fetch(&gogit.FetchOptions{
